@@ -373,6 +373,8 @@ def generic_rules(ctx, rule='RG'):
     n += shared_state_rules(ctx, rule, paths, only)
     n += truthiness_rules(ctx, rule, paths, only)
     n += fresh_packet_rules(ctx, rule, paths, only)
+    n += consumed_argument_rules(ctx, rule, paths, only)
+    n += blocking_under_lock_rules(ctx, rule, paths, only)
     return n
 
 
@@ -422,3 +424,89 @@ def fresh_packet_rules(ctx, rule, paths, only=None):
                 ctx.inst(rule, f, 'packet-not-reused:%s@%d' % (v, int(c.lineno)), bad is None,
                          'the packet %s is queued by send_packet (line %d) and must not be used again before a new one is created; %s' % (v, int(c.lineno), bad or 'ok'))
     return n
+
+
+def consumed_argument_rules(ctx, rule, paths, only=None):
+    """An object the caller handed in is not used up: a parameter stored on self as it is (no copy) must not be emptied through that
+    attribute (pop / popitem / remove / clear / del item) by the methods of the class - the caller's dictionary or list would shrink
+    while the upload runs, and be empty for the next use."""
+    m = ctx.model
+    n = 0
+    REMOVERS = ('pop', 'popitem', 'remove', 'clear', 'popleft')
+    for path in paths:
+        for c in m.mod(path).all_classes():
+            if only is not None and not any(p_ == path and q_.startswith(c.qualname + '.') for p_, q_ in only):
+                continue
+            for f in c.methods.values():
+                for st in walk_own(f.node):
+                    if not (isinstance(st, ast.Assign) and isinstance(st.value, ast.Name) and st.value.id in f.params and st.value.id not in ('self', 'cls')):
+                        continue
+                    for t in st.targets:
+                        if not (isinstance(t, ast.Attribute) and isinstance(t.value, ast.Name) and t.value.id == 'self'):
+                            continue
+                        g = cfg_of(f)
+                        nd = g.node_of(st.value)
+                        if nd is not None and not unchanged_param(g, nd, st.value.id):
+                            continue                 # re-bound before it is stored (e.g. to a copy)
+                        eaten = [norm(y)[:50] for y in ast.walk(c.node) if
+                                 (isinstance(y, ast.Call) and isinstance(y.func, ast.Attribute) and y.func.attr in REMOVERS and norm(y.func.value) == 'self.' + t.attr) or
+                                 (isinstance(y, ast.Delete) and any(isinstance(d, ast.Subscript) and norm(d.value) == 'self.' + t.attr for d in y.targets))]
+                        if not eaten and not any(isinstance(y, ast.Call) for y in ()):
+                            continue
+                        n += 1
+                        ctx.inst(rule, f, 'argument-not-consumed:' + t.attr, not eaten,
+                                 '%s keeps its argument %s as self.%s without copying it, and the class removes entries from it (%s): the caller\'s object is emptied'
+                                 % (f.qualname, st.value.id, t.attr, eaten))
+    return n
+
+
+def blocking_under_lock_rules(ctx, rule, paths, only=None):
+    """No unbounded wait while a lock is held with `with`: a Queue.get that may block, Event.wait, Thread.join or sleep inside the body
+    of `with self.<lock>` keeps every other user of that lock out for as long as the wait lasts (if the thread that would end the wait
+    needs the lock: forever)."""
+    m = ctx.model
+    n = 0
+    for path in paths:
+        for f in m.mod(path).all_funcs():
+            if only is not None and (path, f.qualname) not in only:
+                continue
+            for w in [x for x in walk_own(f.node) if isinstance(x, ast.With)]:
+                locks = [norm(i.context_expr) for i in w.items if 'lock' in norm(i.context_expr).lower()]
+                if not locks:
+                    continue
+                waits = []
+                for s_ in w.body:
+                    for y in walk_own(s_):
+                        if not (isinstance(y, ast.Call) and isinstance(y.func, ast.Attribute)):
+                            continue
+                        a = y.func.attr
+                        kw = {k.arg: k.value for k in y.keywords}
+                        if a == 'get' and ('queue' in norm(y.func.value).lower() or 'block' in kw or 'timeout' in kw):
+                            nb = (y.args and isinstance(y.args[0], ast.Constant) and y.args[0].value is False) or \
+                                 (isinstance(kw.get('block'), ast.Constant) and kw['block'].value is False)
+                            if not nb:
+                                waits.append(norm(y)[:50])
+                        elif a in ('wait', 'join') and not norm(y.func.value).startswith(("'", '"', 'os.path', 'b')):
+                            waits.append(norm(y)[:50])
+                        elif a == 'sleep' and norm(y.func.value) == 'time':
+                            waits.append(norm(y)[:50])
+                n += 1
+                ctx.inst(rule, f, 'no-wait-under:%s@%d' % (locks[0], int(w.lineno)), not waits, 'blocking calls inside `with %s`: %s' % (locks[0], waits), line=w.lineno)
+    return n
+
+
+def one_shot_callback_rules(ctx, rule, func, attr):
+    """`self.<attr>(...)` is a completion callback for one request: every call of it is followed, on every path to the end of the
+    function, by `self.<attr> = None` (a callback that stays installed makes the next update() believe a read is still running)."""
+    g = cfg_of(func)
+    calls = [n for n, c in g.find(lambda q: isinstance(q, ast.Call) and norm(q.func) == 'self.' + attr)]
+    clears = [n for n in g.nodes if n.kind == 'stmt' and isinstance(n.ast, ast.Assign) and any(norm(t) == 'self.' + attr for t in n.ast.targets) and
+              isinstance(n.ast.value, ast.Constant) and n.ast.value.value is None]
+    # a same-class helper that clears it counts as well
+    if func.cls is not None:
+        for n, c in g.find(lambda q: isinstance(q, ast.Call) and isinstance(q.func, ast.Attribute) and norm(q.func.value) == 'self' and func.cls.has(q.func.attr)):
+            h = func.cls.method(c.func.attr)
+            if any(isinstance(s, ast.Assign) and any(norm(t) == 'self.' + attr for t in s.targets) and isinstance(s.value, ast.Constant) and s.value.value is None for s in h.node.body):
+                clears.append(n)
+    leaks = [n.line for n in calls if g.path_avoiding(n, [g.exit], avoid=clears) is not None]
+    ctx.inst(rule, func, 'one-shot:' + attr, bool(calls) and not leaks, 'calls of self.%s at lines %s can leave it installed' % (attr, leaks))
